@@ -54,6 +54,8 @@ class Report:
         self.extra: dict = {}
 
     def add(self, ob: Ob):
+        if ob is None or ob.status == "skipped":
+            return ob
         self.obs.append(ob)
         if ob.function:
             self.functions.add(ob.function)
